@@ -209,6 +209,7 @@ type Op struct {
 type MutCase struct {
 	Doc      string `json:"doc"`      // corpus path
 	Envelope bool   `json:"envelope"` // mutate the calculated envelope instead of the source document
+	Signed   bool   `json:"signed,omitempty"` // ... after signing it (signatures are made once per process)
 	Ops      []Op   `json:"ops"`
 }
 
@@ -223,6 +224,7 @@ var hostileValues = []string{
 var docs []corpus.Doc
 var trees map[string]any    // source documents
 var envTrees map[string]any // calculated envelopes
+var signedTrees map[string]any // calculated and signed envelopes
 
 func loadTrees() {
 	if trees != nil {
@@ -231,6 +233,7 @@ func loadTrees() {
 	docs = corpus.MustLoad()
 	trees = map[string]any{}
 	envTrees = map[string]any{}
+	signedTrees = map[string]any{}
 	for _, d := range docs {
 		v, err := jsontree.Decode(d.JSON)
 		if err != nil {
@@ -241,6 +244,13 @@ func loadTrees() {
 			if out, err := json.Marshal(env); err == nil {
 				if ev, err := jsontree.Decode(out); err == nil {
 					envTrees[d.Path] = ev
+				}
+			}
+			if env.Sign(signKey) == nil {
+				if out, err := json.Marshal(env); err == nil {
+					if ev, err := jsontree.Decode(out); err == nil {
+						signedTrees[d.Path] = ev
+					}
 				}
 			}
 		}
@@ -287,6 +297,10 @@ func judgeMutant(c MutCase, o *vh.Obs) {
 	root := trees[c.Doc]
 	if c.Envelope {
 		root = envTrees[c.Doc]
+		if c.Signed {
+			root = signedTrees[c.Doc]
+			o.Class("signed-envelope")
+		}
 	}
 	if root == nil {
 		o.Discard()
@@ -319,6 +333,10 @@ func genMutCase(t *rapid.T) MutCase {
 			c.Envelope = false
 		} else {
 			root = envTrees[d.Path]
+			if signedTrees[d.Path] != nil && rapid.Bool().Draw(t, "signed") {
+				c.Signed = true
+				root = signedTrees[d.Path]
+			}
 		}
 	}
 	n := rapid.SampledFrom([]int{1, 1, 1, 2, 2, 3}).Draw(t, "nops")
@@ -372,15 +390,23 @@ func enumSingleEdits(yield func(MutCase) bool) {
 		values = []string{`null`, `[null]`, `""`, `{}`, `[]`, `0`, `"ZZZ"`, `true`, `[""]`}
 	}
 	for _, d := range docs {
-		for _, useEnv := range []bool{false, true} {
+		for variant := 0; variant < 3; variant++ {
+			useEnv, signed := variant > 0, variant == 2
 			root := trees[d.Path]
 			if useEnv {
 				root = envTrees[d.Path]
+				if signed {
+					root = signedTrees[d.Path]
+				}
 				if root == nil {
 					continue
 				}
 			}
 			for _, nd := range jsontree.Nodes(root)[1:] {
+				// the signed variant differs from the calculated one outside the document only
+				if signed && strings.HasPrefix(nd.Ptr, "/doc/") {
+					continue
+				}
 				idx++
 				if idx%cfg.Shards != cfg.Shard {
 					continue
@@ -389,20 +415,20 @@ func enumSingleEdits(yield func(MutCase) bool) {
 				if !vh.Thorough() && (idx/cfg.Shards)%10 != int(cfg.Seed%10) {
 					continue
 				}
-				if !yield(MutCase{Doc: d.Path, Envelope: useEnv, Ops: []Op{{Kind: "delete", Ptr: nd.Ptr}}}) {
+				if !yield(MutCase{Doc: d.Path, Envelope: useEnv, Signed: signed, Ops: []Op{{Kind: "delete", Ptr: nd.Ptr}}}) {
 					return
 				}
 				for _, v := range values {
-					if !yield(MutCase{Doc: d.Path, Envelope: useEnv, Ops: []Op{{Kind: "set", Ptr: nd.Ptr, Value: json.RawMessage(v)}}}) {
+					if !yield(MutCase{Doc: d.Path, Envelope: useEnv, Signed: signed, Ops: []Op{{Kind: "set", Ptr: nd.Ptr, Value: json.RawMessage(v)}}}) {
 						return
 					}
 				}
 				if nd.Kind == "array" {
-					if !yield(MutCase{Doc: d.Path, Envelope: useEnv, Ops: []Op{{Kind: "insert", Ptr: nd.Ptr + "/0", Value: json.RawMessage(`null`)}}}) {
+					if !yield(MutCase{Doc: d.Path, Envelope: useEnv, Signed: signed, Ops: []Op{{Kind: "insert", Ptr: nd.Ptr + "/0", Value: json.RawMessage(`null`)}}}) {
 						return
 					}
 					if a, _ := nd.Value.([]any); len(a) > 0 {
-						if !yield(MutCase{Doc: d.Path, Envelope: useEnv, Ops: []Op{{Kind: "dup", Ptr: nd.Ptr + "/0"}}}) {
+						if !yield(MutCase{Doc: d.Path, Envelope: useEnv, Signed: signed, Ops: []Op{{Kind: "dup", Ptr: nd.Ptr + "/0"}}}) {
 							return
 						}
 					}
@@ -681,7 +707,7 @@ var fuzzParse, fuzzBulk func(t *testing.T, c BytesCase)
 
 func init() {
 	vh.Describe(
-		"(1) every single edit (quick tier: of a tenth of the nodes, rotating with the seed) (delete; set to null / [null] / \"\" / {}; insert a null element; duplicate the first element) of every node of every example document and of its calculated envelope, exhaustively; (2) rapid: 1-3 random edits drawn from a hostile value list (nulls, retyped values, unknown currency / country / regime / addon / schema ids, empty and huge numbers, empty and null signatures, deep nesting, duplicated elements); (2b) schema-driven: for every published schema type a minimal document (and the first example of that type) in which each declared path of up to 3 member names (thorough: 5) ends in null / {} / [] / \"\" / 0 / [null] / a malformed template-and-format text, and every member a schema declares and an example (source and calculated envelope) does not carry, added in place with values of the right and of the wrong type (quick tier: a rotating twentieth); (3) fixed hostile texts and truncated examples; (3b) generated documents (internal/docgen) with legal but degenerate numbers: -100% / 0% / huge percentages also as tax rates, with and without included taxes, and generated payments of 1-4 lines whose documents carry tax summaries sharing categories and percentages but differing in surcharges and extensions; (4) thorough: native fuzzing of the parser pipeline and of the bulk request stream. Every input goes through Parse, Envelop, Calculate, Validate, Digest, Verify, Sign, Correct (7 option variants), Replicate, Invert, RemoveIncludedTaxes, Marshal and through bulk build / validate / correct / replicate / verify / sign requests. Oracle: no panic (signature = first gobl frame), no hang (20 s watchdog), every envelope-API error is a *gobl.Error with a documented key that serialises to JSON, every bulk request is answered and the stream ends with one final marker. Non-trivial: the input parses (reaches logic beyond unmarshalling).",
+		"(1) every single edit (quick tier: of a tenth of the nodes, rotating with the seed) (delete; set to null / [null] / \"\" / {}; insert a null element; duplicate the first element) of every node of every example document, of its calculated envelope and (header and signatures) of its signed envelope, exhaustively; (2) rapid: 1-3 random edits drawn from a hostile value list (nulls, retyped values, unknown currency / country / regime / addon / schema ids, empty and huge numbers, empty and null signatures, deep nesting, duplicated elements); (2b) schema-driven: for every published schema type a minimal document (and the first example of that type) in which each declared path of up to 3 member names (thorough: 5) ends in null / {} / [] / \"\" / 0 / [null] / a malformed template-and-format text, and every member a schema declares and an example (source and calculated envelope) does not carry, added in place with values of the right and of the wrong type (quick tier: a rotating twentieth); (3) fixed hostile texts and truncated examples; (3b) generated documents (internal/docgen) with legal but degenerate numbers: -100% / 0% / huge percentages also as tax rates, with and without included taxes, and generated payments of 1-4 lines whose documents carry tax summaries sharing categories and percentages but differing in surcharges and extensions; (4) thorough: native fuzzing of the parser pipeline and of the bulk request stream. Every input goes through Parse, Envelop, Calculate, Validate, Digest, Verify, Sign, Correct (7 option variants), Replicate, Invert, RemoveIncludedTaxes, Marshal and through bulk build / validate / correct / replicate / verify / sign requests. Oracle: no panic (signature = first gobl frame), no hang (20 s watchdog), every envelope-API error is a *gobl.Error with a documented key that serialises to JSON, every bulk request is answered and the stream ends with one final marker. Non-trivial: the input parses (reaches logic beyond unmarshalling).",
 		"a watchdog expiry is reported as a hang only through the replay file (replay must reproduce it)",
 	)
 	vh.Enum("seeds", enumSeeds, judgeBytes)
